@@ -81,7 +81,7 @@ class _BadiYearMonthDayCalculator(_YearMonthDayCalculator):
                 else cls.__DAYS_IN_AYYAMI_HA_IN_NORMAL_YEAR
             )
         num = cls.year_info_raw[year - cls.__FIRST_YEAR_OF_STANDARDIZED_CALENDAR]
-        return cls.__DAYS_IN_AYYAMI_HA_IN_LEAP_YEAR if num > 10 else cls.__DAYS_IN_AYYAMI_HA_IN_NORMAL_YEAR
+        return cls.__DAYS_IN_AYYAMI_HA_IN_LEAP_YEAR if num >= 10 else cls.__DAYS_IN_AYYAMI_HA_IN_NORMAL_YEAR
 
     @classmethod
     def __get_naw_ruz_day_in_march(cls, year: int) -> int:
